@@ -30,7 +30,12 @@ func Harness_C03_SelfCertifying() {
 	if verifrt.Choose("both-algs", 2) == 1 {
 		p.MultihashAlgorithms = []uint{code, gen.SHA256 + gen.SHA512 - code}
 	}
-	c := gen.NewCreate("c", code, somePatches("c")...)
+	// the client may hash with any configured algorithm; the suffix always uses the first configured one
+	clientCode := code
+	if len(p.MultihashAlgorithms) == 2 && verifrt.Choose("client-alg", 2) == 1 {
+		clientCode = p.MultihashAlgorithms[1]
+	}
+	c := gen.NewCreate("c", clientCode, somePatches("c")...)
 	if verifrt.Choose("anchor-origin", 2) == 1 {
 		c.Suffix.AnchorOrigin = verifrt.AnyAtom("origin")
 	}
@@ -65,15 +70,15 @@ func Harness_C03_SelfCertifying() {
 	// single-leaf modification: a different DID or a rejection
 	switch verifrt.Choose("modify", 6) {
 	case 0:
-		c.Suffix.RecoveryCommitment = gen.Commitment(gen.Key("other-rec"), code)
+		c.Suffix.RecoveryCommitment = gen.Commitment(gen.Key("other-rec"), clientCode)
 	case 1:
-		c.Suffix.DeltaHash = gen.ModelHash(gen.Delta(gen.Commitment(gen.Key("other-upd"), code), gen.KeyPatch("other")), code)
+		c.Suffix.DeltaHash = gen.ModelHash(gen.Delta(gen.Commitment(gen.Key("other-upd"), clientCode), gen.KeyPatch("other")), clientCode)
 	case 2:
 		c.Suffix.AnchorOrigin = verifrt.AnyAtom("origin2")
 	case 3:
 		c.Suffix.Type = verifrt.AnyAtom("suffix-type2")
 	case 4:
-		c.Delta.UpdateCommitment = gen.Commitment(gen.Key("other-upd"), code)
+		c.Delta.UpdateCommitment = gen.Commitment(gen.Key("other-upd"), clientCode)
 	case 5:
 		c.Delta.Patches = append([]patch.Patch{gen.KeyPatch("extra")}, c.Delta.Patches...)
 	}
